@@ -140,7 +140,7 @@ def obligations(tier):
         seed = 0
         rng = np.random.RandomState(seed)
         n_eval, fails = 0, []
-        shapes = [(4, 5), (3, 4, 5), (3, 3, 4, 2)] if tier == "quick" else [(4, 5), (5, 4), (3, 4, 5), (4, 4, 4), (3, 3, 4, 2), (2, 3, 2, 3)]
+        shapes = [(4, 5), (3, 4, 5), (3, 3, 4, 2), (2, 2, 10)] if tier == "quick" else [(4, 5), (5, 4), (3, 4, 5), (4, 4, 4), (3, 3, 4, 2), (2, 3, 2, 3), (2, 2, 10), (1, 4, 8, 1), (6, 6)]
         for shape in shapes:
             N = len(shape)
             gens = {"generic": rng.standard_normal(shape), "integer": rng.randint(-3, 4, size=shape).astype(float), "integer-dtype": rng.randint(-3, 4, size=shape)}
@@ -156,7 +156,11 @@ def obligations(tier):
                 seq = [np.linalg.svd(Xf.reshape(int(np.prod(shape[:k + 1])), -1), compute_uv=False) for k in range(N - 1)]
                 for r in range(1, max(shape) + 2):
                     ranks = [min(r, s) for s in shape]
-                    t = tucker(X, ranks, init="svd", n_iter_max=50, tol=1e-12)
+                    try:
+                        t = tucker(X, ranks, init="svd", n_iter_max=50, tol=1e-12)
+                    except Exception as e:  # noqa
+                        fails.append(f"tucker {kind} {shape} ranks {ranks}: raises {type(e).__name__}: {str(e)[:80]}")
+                        continue
                     err = np.linalg.norm(X - tucker_to_tensor(t))
                     tails = [np.sqrt(np.sum(s_[rk:] ** 2)) for s_, rk in zip(sv, ranks)]
                     n_eval += 1
@@ -166,7 +170,11 @@ def obligations(tier):
                         fails.append(f"tucker {kind} {shape} ranks {ranks}: error {err:.3e} below the largest discarded tail {max(tails):.3e}")
                     if N >= 2:
                         tt_rank = [1] + [r] * (N - 1) + [1]
-                        tt = tensor_train(X, tt_rank)
+                        try:
+                            tt = tensor_train(X, tt_rank)
+                        except Exception as e:  # noqa
+                            fails.append(f"tensor_train {kind} {shape} rank {r}: raises {type(e).__name__}: {str(e)[:80]}")
+                            continue
                         err = np.linalg.norm(X - tt_to_tensor(tt))
                         used = list(tt.rank)[1:-1]
                         tails = [np.sqrt(np.sum(s_[rk:] ** 2)) for s_, rk in zip(seq, used)]
@@ -177,9 +185,69 @@ def obligations(tier):
                             fails.append(f"tensor_train {kind} {shape} rank {r}: error {err:.3e} below the largest discarded tail")
                         if any(u > r for u in used):
                             fails.append(f"tensor_train {shape}: returned rank {used} exceeds requested {r}")
+        # exactness at sufficient rank for every exact SVD method, tensor ring (every starting mode) and TT-matrix, float and integer dtype, rank-deficient data
+        from tensorly.decomposition import tensor_ring, tensor_train_matrix
+        from tensorly import tr_to_tensor, tt_matrix_to_tensor
+        def lowrank(shape, r):
+            t = rng.randint(-2, 3, size=[r] * len(shape)).astype(float)
+            for k, s in enumerate(shape):
+                t = np.moveaxis(np.tensordot(rng.randint(-2, 3, size=(s, r)).astype(float), np.moveaxis(t, k, 0), axes=1), 0, k)
+            return t
+        exact_cases = [("generic float", rng.standard_normal((3, 4, 3))), ("integer dtype", rng.randint(-3, 4, size=(3, 4, 3))), ("rank-1 square", np.outer(rng.standard_normal(6), rng.standard_normal(6))),
+                       ("outer product (4,2,2)", lowrank((4, 2, 2), 1)), ("low rank (3,3,3,3)", lowrank((3, 3, 3, 3), 1)), ("low rank integer dtype", lowrank((4, 3, 4), 2).astype(int))]
+        for kind, X in exact_cases:
+            Xf = X.astype(float)
+            nx = max(np.linalg.norm(Xf), 1.0)
+            N = X.ndim
+            for svd_m in ("truncated_svd", "symeig_svd"):
+                tol = 1e-8 if svd_m == "truncated_svd" else 1e-5
+                for extra in (0, 3):
+                    n_eval += 3
+                    try:
+                        t = tucker(X, [s + extra for s in X.shape], svd=svd_m, n_iter_max=20, tol=1e-12)
+                        e1 = np.linalg.norm(Xf - tucker_to_tensor(t)) / nx
+                    except Exception as e:  # noqa
+                        e1 = f"{type(e).__name__}: {e}"
+                    try:
+                        tt = tensor_train(X, [1] + [int(np.prod(X.shape)) + extra] * (N - 1) + [1], svd=svd_m)
+                        e2 = np.linalg.norm(Xf - tt_to_tensor(tt)) / nx
+                    except Exception as e:  # noqa
+                        e2 = f"{type(e).__name__}: {e}"
+                    for nm, e_ in (("tucker", e1), ("tensor_train", e2)):
+                        if isinstance(e_, str) or not (e_ <= tol):
+                            fails.append(f"{nm} {kind} svd={svd_m} ranks beyond the sizes (+{extra}): not exact ({e_})")
+                if N >= 3:
+                    for mode in range(N):
+                        # exact TR ranks: r0 = 1, then the sequential unfolding sizes
+                        order = list(range(mode, N)) + list(range(mode))
+                        shp = [X.shape[o] for o in order]
+                        rk = [1]
+                        for k_ in range(N - 1):
+                            rk.append(min(rk[-1] * shp[k_], int(np.prod(shp[k_ + 1:]))))
+                        rk = rk + [1]
+                        ring = [None] * (N + 1)
+                        for j, o in enumerate(order):
+                            ring[o] = rk[j]
+                        ring[N] = ring[0]
+                        n_eval += 1
+                        try:
+                            tr = tensor_ring(X, ring, mode=mode, svd=svd_m)
+                            e3 = np.linalg.norm(Xf - tr_to_tensor(tr)) / nx
+                        except Exception as e:  # noqa
+                            e3 = f"{type(e).__name__}: {e}"
+                        if isinstance(e3, str) or not (e3 <= tol):
+                            fails.append(f"tensor_ring {kind} svd={svd_m} mode={mode} ranks {ring}: not exact ({e3})")
+            if N == 4 or N == 2:
+                Xm = X if N == 4 else X.reshape(2, 3, 2, 3) if X.size == 36 else None
+                if Xm is not None:
+                    n_eval += 1
+                    ttm = tensor_train_matrix(Xm, [1, Xm.size, 1])
+                    e4 = np.linalg.norm(Xm.astype(float) - tt_matrix_to_tensor(ttm)) / nx
+                    if not (e4 <= 1e-8):
+                        fails.append(f"tensor_train_matrix {kind}: not exact ({e4})")
         return n_eval, fails
     obs.append(BoundedOb(f"{PID}/bounded/quasi-optimality bounds and Tucker exactness on native inputs", "tensorly.decomposition:tucker+tensor_train", bounded,
-                         dict(orders="2-4", kinds="generic/integer-valued/integer-dtype/low-rank", ranks="1..max+1"), "orders 2-4, 4 tensor kinds per shape, all uniform ranks from 1 past the sizes, seed 0"))
+                         dict(orders="2-4", kinds="generic/integer-valued/integer-dtype/low-rank/rank-deficient", ranks="1..max+1 and beyond the sizes", methods="truncated_svd / symeig_svd"), "orders 2-4, 4 tensor kinds per shape (bounds) + 6 exactness cases x 2 exact SVD methods for Tucker, TT, TR (every mode), TT-matrix, all uniform ranks from 1 past the sizes, seed 0"))
     return obs
 
 
